@@ -221,6 +221,13 @@ func (u *fakeUp) holdName(name string) chan struct{} {
 	return ch
 }
 
+// holdWith: the reply for name is held until ch is closed (one channel may hold many names: a barrier)
+func (u *fakeUp) holdWith(name string, ch chan struct{}) {
+	u.mu.Lock()
+	u.hold[strings.ToLower(name)] = ch
+	u.mu.Unlock()
+}
+
 // handle returns the wire reply (nil = none) and whether the connection should be failed.
 func (u *fakeUp) handle(w []byte, proto string) (reply []byte, fail bool) {
 	if own != nil && vtrace.PoisonRun(w, 6) {
